@@ -172,7 +172,9 @@ func (cx *Connection) prefetch() (err error) {
 
 		cx.bytesRead += uint64(n)
 
-		if err != nil {
+		// a read may deliver bytes together with an error: the bytes are
+		// there to be matched, and the error comes back with the next read
+		if err != nil && n == 0 {
 			return err
 		}
 
